@@ -1912,5 +1912,379 @@ theorem ctor_spec (c : Ctor α) :
         rw [if_neg this]
       · rw [if_neg hp]
 
+/-! ## 10. user code panicking on its `k`-th call (`XOp`) -/
+
+theorem mapIdx_id' (l : List α) : (l.mapIdx fun _ x => x) = l := by
+  apply List.ext_getElem?
+  intro n
+  simp [List.getElem?_mapIdx]
+
+theorem mapMutLoop_spec (f : α → α) :
+    ∀ (l : List α) (k : Nat),
+      (mapMutLoop f k l).1 = l.mapIdx (fun n x => if n < k then f x else x) ∧
+      (mapMutLoop f k l).2 = if k < l.length then some .explicit else none := by
+  intro l
+  induction l with
+  | nil => intro k; cases k <;> simp [mapMutLoop]
+  | cons x xs ih =>
+    intro k
+    cases k with
+    | zero =>
+      simp only [mapMutLoop, Nat.not_lt_zero, if_false, List.length_cons, Nat.zero_lt_succ, if_true,
+        and_true]
+      exact (mapIdx_id' (x :: xs)).symm
+    | succ k =>
+      obtain ⟨h1, h2⟩ := ih k
+      simp only [mapMutLoop, h1, h2, List.mapIdx_cons, Nat.zero_lt_succ, if_true,
+        List.length_cons, Nat.succ_lt_succ_iff, and_self]
+
+/-- a pointwise rewrite of the storage is the same pointwise rewrite of the rows -/
+theorem toRows_of_pointwise (m : Matrix α) (h : m.Inv) (data' : List α)
+    (g : Nat → Nat → α → α) (hlen : data'.length = m.data.length)
+    (hcell : ∀ i j, i < m.rows → j < m.columns →
+      data'[j + i * m.columns]? = m.data[j + i * m.columns]?.map (g i j)) :
+    (⟨data', m.rows, m.columns⟩ : Matrix α).Inv ∧
+    (⟨data', m.rows, m.columns⟩ : Matrix α).toRows =
+      m.toRows.mapIdx fun i r => r.mapIdx fun j x => g i j x := by
+  have hinv : (⟨data', m.rows, m.columns⟩ : Matrix α).Inv := ⟨by rw [hlen]; exact h.1, h.2.1, h.2.2⟩
+  refine ⟨hinv, ?_⟩
+  have hr2 : Rect m.columns (m.toRows.mapIdx fun i r => r.mapIdx fun j x => g i j x) := by
+    intro r hr
+    obtain ⟨i, hi, rfl⟩ := List.mem_mapIdx.mp hr
+    simp [rect_toRows m h _ (List.getElem_mem hi)]
+  apply rows_ext (rect_toRows _ hinv) hr2
+  · simp [length_toRows]
+  · intro i j hi hj
+    rw [length_toRows] at hi
+    simp only at hi hj
+    rw [cell_toRows]
+    unfold Rows.cell
+    simp only [List.getElem?_mapIdx, Option.bind_map, Function.comp_def]
+    have hc := cell_toRows m i j
+    unfold Rows.cell at hc
+    simp only [tryGet, getIndex, hi, hj, and_self, if_true] at hc ⊢
+    rw [hcell i j hi hj, ← hc]
+    cases m.toRows[i]? <;> simp
+
+theorem mapFirst_eq (k : Nat) (f : α → Nat → Nat → α) (rs : Rows α) (c : Nat)
+    (hc : Rows.ncols rs = c) :
+    Rows.mapFirst k f rs = rs.mapIdx fun i r => r.mapIdx fun j x => if i * c + j < k then f x i j else x := by
+  unfold Rows.mapFirst; rw [hc]
+
+/-- `map_mut` with a closure panicking on its `k`-th call -/
+theorem mapMutPanic_spec (m : Matrix α) (h : m.Inv) (f : α → α) (k : Nat) :
+    (m.mapMutPanic f k).state.Inv ∧
+    (m.mapMutPanic f k).state.toRows = Rows.mapFirst k (fun x _ _ => f x) m.toRows ∧
+    (m.mapMutPanic f k).panic = if k < m.rows * m.columns then some .explicit else none := by
+  unfold mapMutPanic
+  obtain ⟨h1, h2⟩ := mapMutLoop_spec f m.data k
+  simp only [h1, h2, h.1]
+  have := toRows_of_pointwise m h (m.data.mapIdx fun n x => if n < k then f x else x)
+    (fun i j x => if i * m.columns + j < k then f x else x) (by simp)
+    (by
+      intro i j _ _
+      simp only [List.getElem?_mapIdx, Nat.add_comm j])
+  rw [mapFirst_eq k _ _ m.columns (ncols_toRows m h)]
+  exact ⟨this.1, this.2, trivial⟩
+
+/-- the index pairs in terms of the flat position -/
+theorem indexPairs_eq_range_map (rows columns : Nat) (hc : 0 < columns) :
+    indexPairs rows columns = (List.range (rows * columns)).map fun n => (n / columns, n % columns) := by
+  induction rows with
+  | zero => simp [indexPairs]
+  | succ r ih =>
+    have e1 : indexPairs (r + 1) columns = indexPairs r columns ++ (List.range columns).map fun c => (r, c) := by
+      simp [indexPairs, List.range_succ, List.flatMap_append]
+    rw [e1, ih, Nat.succ_mul, List.range_add, List.map_append, List.map_map]
+    congr 1
+    apply List.map_congr_left
+    intro j hj
+    have hj' : j < columns := List.mem_range.mp hj
+    simp only [Function.comp]
+    have h1 : (r * columns + j) / columns = r := by
+      rw [Nat.add_comm, Nat.add_mul_div_right _ _ hc, Nat.div_eq_of_lt hj']; omega
+    have h2 : (r * columns + j) % columns = j := by
+      rw [Nat.add_comm, Nat.add_mul_mod_self_right, Nat.mod_eq_of_lt hj']
+    rw [h1, h2]
+
+theorem length_indexPairs (rows columns : Nat) (hc : 0 < columns) :
+    (indexPairs rows columns).length = rows * columns := by
+  rw [indexPairs_eq_range_map rows columns hc]; simp
+
+theorem mem_take_indexPairs {rows columns k i j : Nat} (hi : i < rows) (hj : j < columns) :
+    (i, j) ∈ (indexPairs rows columns).take k ↔ i * columns + j < k := by
+  have hc : 0 < columns := by omega
+  rw [indexPairs_eq_range_map rows columns hc, ← List.map_take, List.take_range]
+  simp only [List.mem_map, List.mem_range, Prod.mk.injEq]
+  have hlt : i * columns + j < rows * columns := by
+    have := getIndex_lt hi hj; omega
+  constructor
+  · rintro ⟨n, hn, h1, h2⟩
+    have := Nat.div_add_mod n columns
+    rw [h1, h2, Nat.mul_comm] at this
+    omega
+  · intro hk
+    refine ⟨i * columns + j, by omega, ?_, ?_⟩
+    · rw [Nat.add_comm, Nat.add_mul_div_right _ _ hc, Nat.div_eq_of_lt hj]; omega
+    · rw [Nat.add_comm, Nat.add_mul_mod_self_right, Nat.mod_eq_of_lt hj]
+
+theorem mapIdxLoop_spec (columns : Nat) (f : α → Nat → Nat → α) :
+    ∀ (L : List (Nat × Nat)) (k : Nat) (data : List α),
+      (mapIdxLoop columns f k L data).1 =
+        (L.take k).foldl (fun d (ij : Nat × Nat) =>
+          d.modify (ij.2 + ij.1 * columns) (fun x => f x ij.1 ij.2)) data ∧
+      (mapIdxLoop columns f k L data).2 = if k < L.length then some .explicit else none := by
+  intro L
+  induction L with
+  | nil => intro k data; cases k <;> simp [mapIdxLoop]
+  | cons p L ih =>
+    intro k data
+    cases k with
+    | zero => simp [mapIdxLoop]
+    | succ k =>
+      obtain ⟨h1, h2⟩ := ih k (data.modify (p.2 + p.1 * columns) (fun x => f x p.1 p.2))
+      simp only [mapIdxLoop, h1, h2, List.take_succ_cons, List.foldl_cons, List.length_cons,
+        Nat.succ_lt_succ_iff, and_self]
+
+/-- `map_mut_with_index` with a closure panicking on its `k`-th call -/
+theorem mapMutWithIndexPanic_spec (m : Matrix α) (h : m.Inv) (f : α → Nat → Nat → α) (k : Nat) :
+    (m.mapMutWithIndexPanic f k).state.Inv ∧
+    (m.mapMutWithIndexPanic f k).state.toRows = Rows.mapFirst k f m.toRows ∧
+    (m.mapMutWithIndexPanic f k).panic = if k < m.rows * m.columns then some .explicit else none := by
+  unfold mapMutWithIndexPanic
+  obtain ⟨h1, h2⟩ := mapIdxLoop_spec m.columns f (indexPairs m.rows m.columns) k m.data
+  simp only [h1, h2, length_indexPairs m.rows m.columns h.2.2]
+  have hnd : ((indexPairs m.rows m.columns).take k).Nodup :=
+    List.Nodup.sublist (List.take_sublist _ _) (nodup_indexPairs _ _)
+  obtain ⟨f1, f2⟩ := foldl_modify_spec m.columns f ((indexPairs m.rows m.columns).take k) m.data hnd
+    (fun p hp => (mem_indexPairs.mp (List.mem_of_mem_take hp)).2)
+  have := toRows_of_pointwise m h _ (fun i j x => if i * m.columns + j < k then f x i j else x) f1
+    (by
+      intro i j hi hj
+      rw [f2 i j hj]
+      by_cases hk : i * m.columns + j < k
+      · rw [if_pos ((mem_take_indexPairs hi hj).mpr hk)]
+        simp [hk]
+      · rw [if_neg (fun hm => hk ((mem_take_indexPairs hi hj).mp hm))]
+        simp [hk])
+  rw [mapFirst_eq k _ _ m.columns (ncols_toRows m h)]
+  exact ⟨this.1, this.2, trivial⟩
+
+/-- Every extended operation on an invariant-satisfying matrix: the invariant is kept (also when
+    user code panics part way), the rows are those the list-of-rows model prescribes, and the
+    operation panics exactly when the model says so. -/
+theorem xexec_spec (m : Matrix α) (h : m.Inv) (x : XOp α) :
+    (m.xexec x).state.Inv ∧ (m.xexec x).state.toRows = Rows.xnext m.toRows x ∧
+      (m.xexec x).panic.isSome = Rows.xpanics m.toRows x := by
+  have hn : Rows.nrows m.toRows = m.rows := length_toRows m
+  have hc : Rows.ncols m.toRows = m.columns := ncols_toRows m h
+  cases x with
+  | op o =>
+    simp only [xexec, Rows.xnext, Rows.xpanics, Rows.next]
+    cases hp : Rows.pre m.toRows o with
+    | true =>
+      obtain ⟨h1, h2, h3⟩ := (exec_spec m h o).1 hp
+      simp [h1, h2, h3]
+    | false =>
+      obtain ⟨h1, h2⟩ := (exec_spec m h o).2 hp
+      simp [h1, h2, h]
+  | mapMutPanic f k =>
+    obtain ⟨h1, h2, h3⟩ := mapMutPanic_spec m h f k
+    simp only [xexec, Rows.xnext, Rows.xpanics, hn, hc]
+    refine ⟨h1, h2, ?_⟩
+    rw [h3]; split <;> simp_all
+  | mapMutWithIndexPanic f k =>
+    obtain ⟨h1, h2, h3⟩ := mapMutWithIndexPanic_spec m h f k
+    simp only [xexec, Rows.xnext, Rows.xpanics, hn, hc]
+    refine ⟨h1, h2, ?_⟩
+    rw [h3]; split <;> simp_all
+  | mapPanic f k =>
+    simp only [xexec, Rows.xnext, Rows.xpanics, hn, hc, mapPanic, h.1]
+    by_cases hk : k < m.rows * m.columns
+    · simp [hk, h]
+    · have := (exec_spec m h (.map f)).1 rfl
+      simp only [exec, Rows.apply] at this
+      simp [hk, this]
+  | mapWithIndexPanic f k =>
+    simp only [xexec, Rows.xnext, Rows.xpanics, hn, hc, mapWithIndexPanic,
+      length_indexPairs m.rows m.columns h.2.2]
+    by_cases hk : k < m.rows * m.columns
+    · simp [hk, h]
+    · have := (exec_spec m h (.mapWithIndex f)).1 rfl
+      simp only [exec, Rows.apply] at this
+      simp [hk, this]
+  | insertRowWithPanic row values k =>
+    simp only [xexec, Rows.xnext, Rows.xpanics, hn, hc, insertRowWithPanic]
+    by_cases hr : row ≤ m.rows
+    · by_cases hk : k < nextCalls m.columns values.length
+      · simp [hr, hk, h]
+      · cases hp : Rows.pre m.toRows (.insertRowWith row values) with
+        | true =>
+          have := (exec_spec m h (.insertRowWith row values)).1 hp
+          simp only [exec, Rows.apply, hc] at this
+          simp only [Rows.pre, hn, hc, Bool.and_eq_true, decide_eq_true_eq] at hp
+          simp [hr, hk, this, hp.2]
+        | false =>
+          have := (exec_spec m h (.insertRowWith row values)).2 hp
+          simp only [exec] at this
+          simp only [Rows.pre, hn, hc, hr, decide_true, Bool.true_and, decide_eq_false_iff_not] at hp
+          simp [hr, hk, this, hp, h]
+    · simp [hr, h]
+  | insertColumnWithPanic column values k =>
+    simp only [xexec, Rows.xnext, Rows.xpanics, hn, hc, insertColumnWithPanic]
+    by_cases hr : column ≤ m.columns
+    · by_cases hk : k < nextCalls m.rows values.length
+      · simp [hr, hk, h]
+      · cases hp : Rows.pre m.toRows (.insertColumnWith column values) with
+        | true =>
+          have := (exec_spec m h (.insertColumnWith column values)).1 hp
+          simp only [exec, Rows.apply] at this
+          simp only [Rows.pre, hn, hc, Bool.and_eq_true, decide_eq_true_eq] at hp
+          simp [hr, hk, this, hp.2]
+        | false =>
+          have := (exec_spec m h (.insertColumnWith column values)).2 hp
+          simp only [exec] at this
+          simp only [Rows.pre, hn, hc, hr, decide_true, Bool.true_and, decide_eq_false_iff_not] at hp
+          simp [hr, hk, this, hp, h]
+    · simp [hr, h]
+
+/-! ## 11. row / column / diagonal getters -/
+
+theorem collectUnchecked_ok (m : Matrix α) (h : m.data.length = m.rows * m.columns) :
+    ∀ (L : List (Nat × Nat)), (∀ p ∈ L, p.1 < m.rows ∧ p.2 < m.columns) →
+      m.collectUnchecked L = .ok (L.filterMap fun p => m.tryGet p.1 p.2) := by
+  intro L
+  induction L with
+  | nil => intro _; rfl
+  | cons p L ih =>
+    intro hL
+    obtain ⟨r, c⟩ := p
+    have hp := hL (r, c) List.mem_cons_self
+    obtain ⟨x, hx⟩ := tryGet_isSome m h hp.1 hp.2
+    have hx' : m.data[m.getIndex r c]? = some x := by
+      simpa [tryGet, hp.1, hp.2] using hx
+    simp only [collectUnchecked, hx', ih (fun q hq => hL q (List.mem_cons_of_mem _ hq))]
+    rw [List.filterMap_cons_some (f := fun p : Nat × Nat => m.tryGet p.1 p.2) (a := (r, c)) (b := x) hx]
+
+/-- `column_iter` agrees with the list of rows -/
+theorem columnIter_spec (m : Matrix α) (h : m.Inv) (c : Nat) :
+    m.columnIter c = Rows.columnAt m.toRows c := by
+  unfold columnIter Rows.columnAt
+  rw [ncols_toRows m h]
+  by_cases hc : c < m.columns
+  · have hr : 0 < m.rows := h.2.1
+    rw [if_pos ⟨hr, hc⟩, if_pos hc, collectUnchecked_ok m h.1]
+    · rw [List.filterMap_map, column_toRows]
+      rfl
+    · intro p hp
+      simp only [List.mem_map, List.mem_range] at hp
+      obtain ⟨r, hr', rfl⟩ := hp
+      exact ⟨hr', hc⟩
+  · rw [if_neg (fun hh => hc hh.2), if_neg hc]
+
+/-- `row_iter` agrees with the list of rows -/
+theorem rowIter_spec (m : Matrix α) (h : m.Inv) (r : Nat) :
+    m.rowIter r = Rows.rowAt m.toRows r := by
+  unfold rowIter Rows.rowAt
+  by_cases hr : r < m.rows
+  · have hc : 0 < m.columns := h.2.2
+    have hlen : r < m.toRows.length := by rw [length_toRows]; exact hr
+    rw [if_pos ⟨hr, hc⟩, collectUnchecked_ok m h.1, List.getElem?_eq_getElem hlen]
+    · simp only [List.filterMap_map, Outcome.ok.injEq]
+      apply List.ext_getElem?
+      intro j
+      have hcell := cell_toRows m r j
+      unfold Rows.cell at hcell
+      rw [List.getElem?_eq_getElem hlen] at hcell
+      simp only [Option.bind_some] at hcell
+      rw [hcell, getElem?_filterMap_all_some]
+      · by_cases hj : j < m.columns
+        · simp [List.getElem?_range hj, Function.comp]
+        · rw [List.getElem?_eq_none (by simp; omega)]
+          simp [tryGet, hj]
+      · intro c hc'
+        exact tryGet_isSome m h.1 hr (List.mem_range.mp hc')
+    · intro p hp
+      simp only [List.mem_map, List.mem_range] at hp
+      obtain ⟨c, hc', rfl⟩ := hp
+      exact ⟨hr, hc'⟩
+  · rw [if_neg (fun hh => hr hh.1), List.getElem?_eq_none (by rw [length_toRows]; omega)]
+
+/-- `diagonal_iter` agrees with the list of rows (and never panics) -/
+theorem diagonalIter_spec (m : Matrix α) (h : m.Inv) :
+    m.diagonalIter = .ok (Rows.diagonal m.toRows) := by
+  unfold diagonalIter Rows.diagonal
+  rw [collectUnchecked_ok m h.1, ncols_toRows m h, show Rows.nrows m.toRows = m.rows from length_toRows m]
+  · rw [List.filterMap_map]
+    congr 1
+    apply filterMap_congr'
+    intro i _
+    simp only [Function.comp]
+    exact (cell_toRows m i i).symm
+  · intro p hp
+    simp only [List.mem_map, List.mem_range] at hp
+    obtain ⟨i, hi, rfl⟩ := hp
+    exact ⟨by omega, by omega⟩
+
+/-! ## 12. what the property itself demands after a panicking in-place map -/
+
+theorem cell_mapFirst (k : Nat) (g : α → Nat → Nat → α) (rs : Rows α) (i j : Nat) :
+    Rows.cell (Rows.mapFirst k g rs) i j =
+      (Rows.cell rs i j).map fun x => if i * Rows.ncols rs + j < k then g x i j else x := by
+  unfold Rows.cell Rows.mapFirst
+  simp only [List.getElem?_mapIdx]
+  cases rs[i]? with
+  | none => rfl
+  | some r => simp [List.getElem?_mapIdx]
+
+theorem cell_mapFirst_old_or_mapped (k : Nat) (g : α → Nat → Nat → α) (rs : Rows α) (i j : Nat) :
+    Rows.cell (Rows.mapFirst k g rs) i j = Rows.cell rs i j ∨
+    Rows.cell (Rows.mapFirst k g rs) i j = (Rows.cell rs i j).map fun x => g x i j := by
+  rw [cell_mapFirst]
+  by_cases h : i * Rows.ncols rs + j < k
+  · right; simp [h]
+  · left; simp [h]
+
+/-! ## 13. equality -/
+
+theorem zip_all_beq [BEq α] [LawfulBEq α] :
+    ∀ (a b : List α), a.length = b.length →
+      (((a.zip b).all fun p => p.1 == p.2) = true ↔ a = b) := by
+  intro a
+  induction a with
+  | nil => intro b h; cases b <;> simp_all
+  | cons x xs ih =>
+    intro b h
+    cases b with
+    | nil => simp at h
+    | cons y ys =>
+      simp only [List.length_cons, Nat.add_right_cancel_iff] at h
+      simp only [List.zip_cons_cons, List.all_cons, Bool.and_eq_true, beq_iff_eq, ih ys h,
+        List.cons.injEq]
+
+/-- `==` on matrices satisfying the invariant is equality of their lists of rows -/
+theorem eqP_spec [BEq α] [LawfulBEq α] (a b : Matrix α) (ha : a.Inv) (hb : b.Inv) :
+    a.eqP b = true ↔ a.toRows = b.toRows := by
+  unfold eqP
+  constructor
+  · intro h
+    by_cases hr : a.rows = b.rows
+    · by_cases hc : a.columns = b.columns
+      · simp only [hr, hc, bne_self_eq_false, Bool.false_eq_true, if_false] at h
+        have hl : a.data.length = b.data.length := by rw [ha.1, hb.1, hr, hc]
+        have hd := (zip_all_beq a.data b.data hl).mp h
+        have : a = b := by
+          cases a; cases b; simp_all
+        rw [this]
+      · simp [hr, hc] at h
+    · simp [hr] at h
+  · intro h
+    have hr : a.rows = b.rows := by rw [← length_toRows a, ← length_toRows b, h]
+    have hc : a.columns = b.columns := by rw [← ncols_toRows a ha, ← ncols_toRows b hb, h]
+    have hd : a.data = b.data := by rw [← flatten_toRows a ha, ← flatten_toRows b hb, h]
+    simp only [hr, hc, bne_self_eq_false, Bool.false_eq_true, if_false]
+    rw [hd]
+    exact (zip_all_beq b.data b.data rfl).mpr rfl
+
 end Matrix
 end EasyMl
